@@ -96,7 +96,7 @@ func (r *Run) ExploreSpecs(specs []Spec) {
 			}
 			continue
 		}
-		if len(specs) <= 12 {
+		if len(specs) <= 12 || os.Getenv("VERIF_VERBOSE") != "" {
 			fmt.Printf("  space %-34s states=%d transitions=%d ops=%d maxdepth=%d exhaustive=%v %.1fs %s\n",
 				specs[i].Name, x.st.States, x.st.Transitions, x.st.OpsRun, x.st.MaxDepth, x.st.Exhaustive, x.st.Wall, x.st.CapHit)
 		}
